@@ -139,21 +139,21 @@ theorem unreader_Read_eq {S : Type} (rd : S → Int → Bytes × Nat × S) (u : 
     have hg : ¬ ((u.buf.length : Int) ≠ (u.pos : Int)) := by omega
     have hd := hrd u.r (p.length : Int) (by omega)
     have hd' : (rd u.r (p.length : Int)).1.length ≤ p.length := by omega
-    have hb2 : Streamingaead.Read.buf_2 S rd u.buf (u.pos : Int) u.disabled p u.r
+    have hb2 : Streamingaead.Read.v5 S rd u.buf (u.pos : Int) u.disabled p u.r
         = (rd u.r (p.length : Int)).1 ++ p.drop (rd u.r (p.length : Int)).1.length := by
-      simp only [Streamingaead.Read.buf_2, Streamingaead.Read.ext_rd, len_eq, Int.sub_zero]
+      simp only [Streamingaead.Read.v5, Streamingaead.Read.v4, len_eq, Int.sub_zero]
       exact copy_front p _ hd'
-    have hn2 : Streamingaead.Read.n_2 S rd u.buf (u.pos : Int) u.disabled p u.r
+    have hn2 : Streamingaead.Read.v6 S rd u.buf (u.pos : Int) u.disabled p u.r
         = ((rd u.r (p.length : Int)).1.length : Int) := by
-      simp only [Streamingaead.Read.n_2, Streamingaead.Read.ext_rd, len_eq, Int.sub_zero]
-    have hub2 : Streamingaead.Read.u_buf_2 S rd u.buf (u.pos : Int) u.disabled p u.r
+      simp only [Streamingaead.Read.v6, Streamingaead.Read.v4, len_eq, Int.sub_zero]
+    have hub2 : Streamingaead.Read.v11 S rd u.buf (u.pos : Int) u.disabled p u.r
         = u.buf ++ (rd u.r (p.length : Int)).1 := by
-      simp only [Streamingaead.Read.u_buf_2, hb2, hn2]
+      simp only [Streamingaead.Read.v11, hb2, hn2]
       rw [slice_pre _ _ (by simp), List.take_left']
       rfl
-    simp only [Streamingaead.Read, len_eq, hg, ↓reduceIte, hb2, hn2, Streamingaead.Read.err,
-      Streamingaead.Read.u_r, Streamingaead.Read.u_buf_3, Streamingaead.Read.u_pos_4, Streamingaead.Read.u_pos_3,
-      Streamingaead.Read.u_pos_2, Streamingaead.Read.u_buf, hub2, Streamingaead.Read.ext_rd, Int.sub_zero]
+    simp only [Streamingaead.Read, len_eq, hg, ↓reduceIte, hb2, hn2, Streamingaead.Read.v7,
+      Streamingaead.Read.v8, Streamingaead.Read.v13, Streamingaead.Read.v14, Streamingaead.Read.v12,
+      Streamingaead.Read.v10, Streamingaead.Read.v9, hub2, Streamingaead.Read.v4, Int.sub_zero]
     cases hdis : u.disabled
     · rw [read_source_rec rd u p.length h hdis]
       simp
@@ -162,18 +162,18 @@ theorem unreader_Read_eq {S : Type} (rd : S → Int → Bytes × Nat × S) (u : 
   · -- replay from the recording
     have hg : (u.buf.length : Int) ≠ (u.pos : Int) := by omega
     have hs : slice u.buf (u.pos : Int) (u.buf.length : Int) = u.buf.drop u.pos := slice_suf u.buf u.pos hpos
-    have hn : Streamingaead.Read.n S rd u.buf (u.pos : Int) u.disabled p u.r
+    have hn : Streamingaead.Read.v2 S rd u.buf (u.pos : Int) u.disabled p u.r
         = (((u.buf.drop u.pos).take p.length).length : Int) := by
-      simp only [Streamingaead.Read.n, len_eq, hs, Int.sub_zero, List.length_take, List.length_drop]
+      simp only [Streamingaead.Read.v2, len_eq, hs, Int.sub_zero, List.length_take, List.length_drop]
       omega
-    have hp : Streamingaead.Read.u_pos S rd u.buf (u.pos : Int) u.disabled p u.r
+    have hp : Streamingaead.Read.v3 S rd u.buf (u.pos : Int) u.disabled p u.r
         = ((u.pos + ((u.buf.drop u.pos).take p.length).length : Nat) : Int) := by
-      simp only [Streamingaead.Read.u_pos, Streamingaead.Read.n, len_eq, hs, Int.sub_zero, List.length_take,
+      simp only [Streamingaead.Read.v3, Streamingaead.Read.v2, len_eq, hs, Int.sub_zero, List.length_take,
         List.length_drop]
       exact replay_pos u.pos u.buf.length p.length hpos hlen
-    have hb : Streamingaead.Read.buf S rd u.buf (u.pos : Int) u.disabled p u.r
+    have hb : Streamingaead.Read.v1 S rd u.buf (u.pos : Int) u.disabled p u.r
         = (u.buf.drop u.pos).take p.length ++ p.drop ((u.buf.drop u.pos).take p.length).length := by
-      simp only [Streamingaead.Read.buf, len_eq, hs]
+      simp only [Streamingaead.Read.v1, len_eq, hs]
       exact copy_front_take p _
     rw [read_replay rd u p.length h]
     simp only [Streamingaead.Read, len_eq, hn, hp, hb]
